@@ -10,6 +10,34 @@ CHECKS = {
          "Independent fresh daemon processes (different hash seeds, GOMAXPROCS, upstream delays, time zones; one under the race detector) replay forged chains built to contain exact ties (equal staking stakes incl. the top stake above the cap, equal oversubscribed bank requests, >100-entry blocks); canonical dumps of all ledger tables must be byte-identical. Sampling of schedules/hash seeds, not enumeration: held-on-K-executions.",
          "Trusted: the lab's forge/fake factomd/dumper (self-checked: forged chains are parsed and Merkle-verified by the daemon's own factom client). Compressed era heights; averaging window 12.",
          "DESIGN.md §3 C01"),
+ "C02": ("fault_enumeration", "crash-point enumeration: SIGKILL at SQL statement boundaries + fresh-process verifier",
+         "The real daemon is SIGKILLed before/after the k-th database statement (BEGIN, COMMIT and pool reads included) of special blocks (every payout/one-time-adjustment/bank/snapshot kind) in rollback-journal and WAL mode; a fresh process checks integrity, recorded height, ledger == reference state of that height, contiguous height rows, and resumes. Quick = stratified by call site; thorough = every statement index of the special blocks.",
+         "Process kill only (page cache survives), not power loss. Statement boundaries are the crash points; the wrapper driver is shown transparent by the self-check.",
+         "DESIGN.md §3 C02"),
+ "C05": ("exploration", "metamorphic mutation of signed entries (bit flips + structural forgeries)",
+         "Every single-bit flip of content/salt/RCD/signature of valid base entries (RCD-1 and RCD-e, transfer and conversion, salt window edges) plus structural forgeries are placed next to the originals; ledger with forgeries must equal ledger without; single-purpose senders give a direct positive control.",
+         "ed25519/secp256k1 libraries trusted; exact RCD-e activation height not judged.",
+         "DESIGN.md §3 C05"),
+ "C06": ("exploration", "effect counting on single-purpose addresses + metamorphic first-occurrence-only replay",
+         "Entries repeated at every placement relative to holding/execution/rejection/restart, in four eras; number of effects read from final balances (0 or 1); chain with first occurrences only must give the same ledger.",
+         "Rejected-transfer-then-funded repeats judged as at-most-once only.",
+         "DESIGN.md §3 C06"),
+ "C08": ("exploration", "bounded-progress + crash monitor under a hostile-entry generator",
+         "31 kinds of hostile/malformed/duplicated entries on the three tracked chains are applied by the real daemon on top of adaptively forged ledgers in every era; a block must commit within 3 attempts and the process must survive (panics, log.Fatal and runtime fatals are observed, attributed and de-duplicated).",
+         "Healthy fake factomd/database; Factom-level malformations out of scope; liveness restated as bounded progress.",
+         "DESIGN.md §3 C08"),
+ "C09": ("exploration", "metamorphic restart placement (continuous vs restarted runs)",
+         "Chains with ungraded blocks inside the averaging window and average-priced conversions are synced continuously and with clean restarts at chosen heights; per-height and final dumps must coincide. Thorough tier is exhaustive over single (gap, restart) placements in a 3-window span and adds chains at the real 288 window.",
+         "Window shortened via the exported package variables except in the real-window chains; restart = cancel + new NewPegnetd on the same database.",
+         "DESIGN.md §3 C09"),
+ "C10": ("fault_enumeration", "single-fault injection at SQL statement / upstream request boundaries + differential ledger",
+         "One transient fault (statement returns an error instead of executing, or request answered by RPC error / HTTP 500 / truncated body / reset) per run on special blocks, plus sampled pairs; every state committed from the faulted block on must equal the fault-free reference; crash-stop after a fault is resumed by a fresh process. Quick = every distinct (call site, statement shape) and request kind; thorough = every index.",
+         "Faults only at boundaries where the real system can fail; transient by construction.",
+         "DESIGN.md §3 C10"),
+ "C18": ("exploration", "Go race detector + differential ledger + committed-state history check (porcupine)",
+         "The real JSON-RPC server and the real sync loop run concurrently under -race with 12-32 clients cycling all read methods and injected delays; race reports with daemon frames, runtime fatals, ledger difference against the no-load run, and any response (part) that shows a height whose COMMIT was not yet issued are violations; histories are also checked with porcupine against a committed-height register model.",
+         "Schedules sampled; stale-but-committed answers are allowed (the property forbids uncommitted state, not staleness); cache-derived pUSD fields not compared.",
+         "DESIGN.md §3 C18"),
 }
 
 NOT_YET = "check not built yet in this round; no claim is made"
